@@ -1,5 +1,38 @@
 import CoclsModel.StorageProofs
 namespace Cocls.Storage
+/-- `alloc` answers with a frame, a rejection (static_storage's assert) or `bad` (no such stack_storage object) -/
+theorem alloc_res_kind (s : State) (k sz : Nat) :
+    (∃ id blk, (stepAlloc s k sz).2 = Res.alloc id blk) ∨ (stepAlloc s k sz).2 = Res.rejected ∨ (stepAlloc s k sz).2 = Res.bad := by
+  unfold stepAlloc
+  split
+  · exact Or.inl ⟨_, _, rfl⟩
+  · exact Or.inl ⟨_, _, rfl⟩
+  · exact Or.inl ⟨_, _, rfl⟩
+  · split
+    · exact Or.inr (Or.inr rfl)
+    · exact Or.inl ⟨_, _, rfl⟩
+  · exact Or.inl ⟨_, _, rfl⟩
+  · exact Or.inl ⟨_, _, rfl⟩
+  · split
+    · exact Or.inr (Or.inl rfl)
+    · exact Or.inl ⟨_, _, rfl⟩
+
+theorem alloc_rejected_same (s : State) (k sz : Nat) (h : (stepAlloc s k sz).2 = Res.rejected) : (stepAlloc s k sz).1 = s := by
+  unfold stepAlloc at h ⊢
+  split at h <;> try (cases h)
+  · split at h <;> cases h
+  · split at h
+    · rename_i hh; simp only [hh, if_true]
+    · cases h
+
+theorem alloc_bad_not_ok (s : State) (k sz : Nat) (h : (stepAlloc s k sz).2 = Res.bad) : (stepAlloc s k sz).1.ok = false := by
+  unfold stepAlloc at h ⊢
+  split at h <;> try (cases h)
+  · split at h
+    · rename_i hh; simp only [hh]
+    · cases h
+  · split at h <;> cases h
+
 theorem stepFree_sstate (s : State) (id : Nat) :
     (stepFree s id).1.sstate = s.sstate ∧ (stepFree s id).1.objs = s.objs ∧ (stepFree s id).1.cfg = s.cfg := by
   unfold stepFree
@@ -68,6 +101,25 @@ theorem reachable_cfg {c : Cfg} {s : State} (h : Reachable c s) : s.cfg = c := b
   obtain ⟨ops, rfl⟩ := h
   exact run_cfg (init c) ops
 
+theorem capBytes_mono_allocThrow {s : State} (hc : CfgOK s.cfg) (h : Inv s) (k sz : Nat)
+    (hok : (stepAllocThrow s k sz).1.ok = true) : capBytes s ≤ capBytes (stepAllocThrow s k sz).1 := by
+  have h1 : capBytes s ≤ capBytes (stepAlloc s k sz).1 :=
+    capBytes_mono_step s hc h.mem.vsize_le (Op.alloc k sz) ⟨(fun e => by cases e), (fun e => by cases e), (fun _ _ e => by cases e)⟩
+  unfold stepAllocThrow at hok ⊢
+  split
+  · rename_i id blk hres
+    simp only [hres] at hok
+    have hok2 : (stepFree (stepAlloc s k sz).1 id).1.ok = true := hok
+    have hok1 := stepFree_ok_mono _ id hok2
+    have hi1 : Inv (stepAlloc s k sz).1 := inv_stepAlloc hc h k sz hok1
+    have hc1 : CfgOK (stepAlloc s k sz).1.cfg := by
+      have : (stepAlloc s k sz).1.cfg = s.cfg := step_cfg s (Op.alloc k sz)
+      rw [this]; exact hc
+    have h2 : capBytes (stepAlloc s k sz).1 ≤ capBytes (stepFree (stepAlloc s k sz).1 id).1 :=
+      capBytes_mono_step _ hc1 hi1.mem.vsize_le (Op.free id) ⟨(fun e => by cases e), (fun e => by cases e), (fun _ _ e => by cases e)⟩
+    exact Nat.le_trans h1 h2
+  · exact h1
+
 theorem capBytes_mono_run {s : State} (hc : CfgOK s.cfg) (h : Inv s) (ops : List Op)
     (hnd : Op.destroy ∉ ops ∧ Op.swapobj ∉ ops)
     (hok : (run s ops).ok = true) : capBytes s ≤ capBytes (run s ops) := by
@@ -75,7 +127,12 @@ theorem capBytes_mono_run {s : State} (hc : CfgOK s.cfg) (h : Inv s) (ops : List
   | nil => exact Nat.le_refl _
   | cons op ops ih =>
     have hok1 : (step s op).1.ok = true := run_ok_mono _ ops hok
-    have h1 := capBytes_mono_step s hc h.mem.vsize_le op ⟨fun e => hnd.1 (by simp [e]), fun e => hnd.2 (by simp [e])⟩
+    have h1 : capBytes s ≤ capBytes (step s op).1 := by
+      by_cases hth : ∃ k sz, op = Op.allocThrow k sz
+      · obtain ⟨k, sz, rfl⟩ := hth
+        exact capBytes_mono_allocThrow hc h k sz hok1
+      · exact capBytes_mono_step s hc h.mem.vsize_le op
+          ⟨fun e => hnd.1 (by simp [e]), fun e => hnd.2 (by simp [e]), fun k sz e => hth ⟨k, sz, e⟩⟩
     have h2 := ih (s := (step s op).1) (by rw [step_cfg]; exact hc) (inv_step hc h op hok1)
       ⟨fun e => hnd.1 (List.mem_cons_of_mem _ e), fun e => hnd.2 (List.mem_cons_of_mem _ e)⟩ hok
     exact Nat.le_trans h1 h2
